@@ -9,6 +9,7 @@ import (
 	"context"
 	"errors"
 	"strings"
+	"sync"
 	"time"
 
 	"github.com/ChainSafe/sygma-relayer/comm"
@@ -143,6 +144,53 @@ type c11Env struct {
 	sid     string
 	self    peer.ID
 	holders []peer.ID
+
+	bullyWait time.Duration // BullyWaitTime of this run
+	silent    bool          // the first attempt ends by CoordinatorTimeout (set short); everything later runs with one hour
+	short     bool          // `~`: CoordinatorTimeout is short until an election starts
+	mu        sync.Mutex
+	lb        time.Time     // a moment known to precede the creation of the election's timer
+	over      chan struct{} // closed when the election's Select subscription is released (election over)
+	overOnce  sync.Once
+	firstSeen bool
+}
+
+// setSilent: the first attempt ends by CoordinatorTimeout; when its waitForStart subscribes to the start messages the
+// mark is set (only later subscriptions are delivered to) and the time-out of everything after it becomes one hour.
+func (e *c11Env) setSilent() {
+	e.silent = true
+	t := comm.TssStartMsg
+	e.cm.markFirst = &t
+}
+
+func (e *c11Env) setLB() {
+	e.mu.Lock()
+	e.lb = time.Now()
+	e.mu.Unlock()
+}
+
+// onEvent runs synchronously inside the goroutine of the code under test that subscribes / unsubscribes / broadcasts.
+func (e *c11Env) onEvent(ev c07Event) {
+	if ev.session != e.sid {
+		return
+	}
+	switch {
+	case ev.kind == "sub" && ev.typ == comm.TssStartMsg && e.silent:
+		e.mu.Lock()
+		first := !e.firstSeen
+		e.firstSeen = true
+		e.mu.Unlock()
+		if first {
+			// waitForStart of the FIRST attempt has already been handed its (short) time-out; everything after it gets one
+			// hour (the mark was set by the communication itself, see markFirst)
+			e.co.CoordinatorTimeout = time.Hour
+			e.setLB()
+		}
+	case ev.kind == "sub" && ev.typ == comm.CoordinatorSelectMsg && e.short:
+		e.co.CoordinatorTimeout = time.Hour
+	case ev.kind == "unsub" && ev.typ == comm.CoordinatorSelectMsg:
+		e.overOnce.Do(func() { close(e.over) })
+	}
 }
 
 // c11NewEnv: with a claimant the election must still be running when its Select message has gone through
@@ -152,12 +200,14 @@ func c11NewEnv(self peer.ID, t int, sid string, holders []peer.ID, retryable boo
 	cm := c07NewComm()
 	h := c07NewHost(self, c07Peers)
 	cfg := relayer.BullyConfig{ElectionWaitTime: 2 * time.Millisecond, BullyWaitTime: 25 * time.Millisecond}
-	if claimant {
-		cfg = relayer.BullyConfig{ElectionWaitTime: 5 * time.Millisecond, BullyWaitTime: 250 * time.Millisecond}
+	if claimant { // stretched 5× / 25× when a run had to be discarded (c07Escalating)
+		cfg = relayer.BullyConfig{ElectionWaitTime: 5 * time.Millisecond, BullyWaitTime: 250 * time.Millisecond * c07Scale()}
 	}
 	co := tss.NewCoordinator(h, cm, elector.VerifC11NewFactory(h, cm, cfg))
 	co.CoordinatorTimeout, co.TssTimeout, co.InitiatePeriod = time.Hour, time.Hour, time.Hour
-	e := &c11Env{cm: cm, co: co, sid: sid, self: self, holders: holders}
+	e := &c11Env{cm: cm, co: co, sid: sid, self: self, holders: holders, bullyWait: cfg.BullyWaitTime, over: make(chan struct{})}
+	cm.hook = e.onEvent
+	e.setLB()
 	e.proc = &c07Proc{real: c07Signing("ecdsa", sid, h, cm, holders, t), retryable: retryable, started: make(chan struct{}, 16)}
 	return e
 }
@@ -181,6 +231,50 @@ func (e *c11Env) firstOf(done <-chan struct{}, conds map[string]func() bool, ord
 		return r
 	}
 	return res
+}
+
+// claim makes `claimant` announce itself coordinator (Select) to the running election in such a way that the
+// announcement has certainly been processed before the election ends — or records an anomaly (the run is discarded and
+// repeated with a longer election):
+//  1. wait for the relayer's own Select broadcast: elect() is over, the elector sits in its receive loop;
+//  2. hand the claimant's Select over three times (listen forwards one message at a time to that loop over an
+//     unbuffered channel, so the third hand-over completing means the loop has finished processing the first);
+//  3. check from time stamps that this moment lies before (a moment preceding the creation of the election's timer)
+//     + BullyWaitTime, i.e. before the timer can have fired and the elected coordinator been read.
+func (e *c11Env) claim(done <-chan struct{}, claimant peer.ID, castMark int) string {
+	cm := e.cm
+	if r := cm.waitUntil(c07Patience(), done, func() bool {
+		for _, b := range cm.casts[castMark:] {
+			if b.typ == comm.CoordinatorSelectMsg {
+				return true
+			}
+		}
+		return false
+	}); r != "ok" {
+		return "claim-" + r
+	}
+	stop := make(chan struct{})
+	go func() {
+		select {
+		case <-e.over:
+		case <-done:
+		}
+		close(stop)
+	}()
+	for i := 0; i < 3; i++ {
+		if r := cm.deliver(e.sid, comm.CoordinatorSelectMsg, claimant, []byte{}, stop); r != "ok" {
+			c07Anomaly()
+			return "claim-" + r
+		}
+	}
+	e.mu.Lock()
+	lb := e.lb
+	e.mu.Unlock()
+	if !time.Now().Before(lb.Add(e.bullyWait)) {
+		c07Anomaly()
+		return "claim-late"
+	}
+	return "ok"
 }
 
 // stopOn returns a channel closed when the process enters a Run or the main call returns.
@@ -212,19 +306,20 @@ func (e *c11Env) second(done <-chan struct{}, cancel func(), responder string, a
 		}
 		return n
 	}
+	// all three conditions are about what has EVER happened since the marks (monotone): an election that came and went
+	// while this goroutine was not scheduled is still seen, and in the right order
 	conds := map[string]func() bool{
-		"bully": func() bool { return cm.subscriber(e.sid, comm.CoordinatorSelectMsg) != nil },
-		"wait":  func() bool { return cm.subscriber(e.sid, comm.TssStartMsg) != nil },
+		"bully": func() bool { return cm.everSub(e.sid, comm.CoordinatorSelectMsg) },
+		"wait":  func() bool { return cm.everSub(e.sid, comm.TssStartMsg) },
 		"coord": func() bool { return nInit() > 0 },
 	}
 	bully := false
 	st := e.firstOf(done, conds, []string{"bully", "wait"})
 	if st == "bully" {
 		bully = true
-		e.co.CoordinatorTimeout = time.Hour // (only the first attempt of `exec … silent` runs with a short one)
 		if responder != "-" {
-			if r := cm.deliver(e.sid, comm.CoordinatorSelectMsg, c07Peer(responder), []byte{}, done); r != "ok" && r != "done" {
-				note += ";select-" + r
+			if r := e.claim(done, c07Peer(responder), castMark); r != "ok" {
+				note += ";" + r
 			}
 		}
 		st = e.firstOf(done, conds, []string{"coord", "wait"})
@@ -357,10 +452,12 @@ func init() {
 		holders := c07PeerList(a[3])
 		e := c11NewEnv(self, t, sid, holders, true, a[5] != "-" && !strings.HasPrefix(a[5], "~"))
 		if strings.HasPrefix(a[5], "~") {
+			e.short = true
 			e.co.CoordinatorTimeout = c11ShortTimeout
 		}
 		e.proc.outcomes = []func(context.Context) error{c11Nil, c11Nil}
 		err := c11Build(a[4], self)
+		e.setLB()
 		ctx, cancel := context.WithCancel(context.Background())
 		defer cancel()
 		done := make(chan struct{})
@@ -408,20 +505,24 @@ func init() {
 			if withFail {
 				<-ctx.Done()
 				setMarks()
+				e.setLB()
 				close(failed)
 			}
 			return c11Leaf(code, self)
 		}
 		e.proc.onEnter = func(i int) {
 			if i == 0 && strings.HasPrefix(a[6], "~") { // the first attempt's own wait keeps its one-hour ticker
+				e.short = true
 				e.co.CoordinatorTimeout = c11ShortTimeout
 			}
 			if i == 0 && !silent && !withFail {
 				setMarks()
+				e.setLB()
 			}
 		}
 		if silent {
 			e.proc.outcomes = []func(context.Context) error{c11Nil, c11Nil}
+			e.setSilent()
 			e.co.CoordinatorTimeout = 30 * time.Millisecond
 		} else {
 			e.proc.outcomes = []func(context.Context) error{first, c11Nil, c11Nil}
@@ -438,12 +539,7 @@ func init() {
 		runMark := 0
 		switch {
 		case silent:
-			// wait for the first attempt's subscriptions, then only look at newer ones
-			if r := cm.waitUntil(c07Patience(), done, func() bool { return cm.subscriber(sid, comm.TssStartMsg) != nil }); r == "ok" {
-				cm.mu.Lock()
-				cm.mark = cm.next
-				cm.mu.Unlock()
-			}
+			// nothing to deliver: the static coordinator never speaks
 		case c == self:
 			if r := cm.waitUntil(c07Patience(), done, func() bool { return cm.subscriber(sid, comm.TssReadyMsg) != nil }); r != "ok" {
 				note = ";first-" + r
@@ -488,6 +584,9 @@ func init() {
 			runMark = 0
 		}
 		return "run1=" + run1 + ";" + e.second(done, cancel, a[6], c07PeerList(a[7]), castMark, runMark, &rerr) + note
+	}
+	for _, k := range []string{"C11.handle", "C11.exec"} {
+		ops[k] = c07Escalating(ops[k])
 	}
 	gens["C11"] = genC11
 }
